@@ -211,10 +211,10 @@ def flush_laws(view):
 def setup(concepts, spec):
     cap = CAP[spec['tier']]
     attach.attach_ctor(concepts)
-    lm = concepts.lattice_members.TransformableMixin
+    lm = concepts.lattice_members.Concept
     attach.attach(lm, 'join', ConceptOp('j', cap))      # also replaces __or__
     attach.attach(lm, 'meet', ConceptOp('m', cap))      # also replaces __and__
-    la = concepts.lattices.AggregagtionMixin
+    la = concepts.lattices.Lattice
     attach.attach(la, 'join', LatticeOp('j', cap))
     attach.attach(la, 'meet', LatticeOp('m', cap))
     hits = attach.bindings()
